@@ -6,6 +6,34 @@ func reg(p *PropSpec) { propSpecs[p.ID] = p }
 
 func init() {
 	reg(&PropSpec{
+		ID: "C11", Prefix: "vh_C11_",
+		Quick:    Tier{Params: map[string]int{"segs": 2, "seg_len": 2}},
+		Thorough: Tier{Params: map[string]int{"segs": 3, "seg_len": 2}},
+		Bounds: []string{
+			"canonical location: file:///, http://h.example/ or https://h.example/ followed by 1..segs path segments of 1..seg_len symbolic bytes over {a b Z 0 9 - _ . ~ 0xC3 0xA9}; file locations optionally under the working directory",
+			"one re-spelling operator applied at a symbolic position: ./ insertion, x/../ insertion, doubled slash, file:/ form, bare absolute path, upper-case scheme, trailing fragment, trailing query (files), path relative to the working directory (with or without ./)",
+			"observed through ResolveRefWithBase(nil, ref, {RelativeBase, PathLoader}) for ref in {\"\", #/definitions/y, sib.json, ../up.json#/a}; loader refuses every document",
+		},
+		Outside:     []string{"more/longer segments, segments containing reserved characters, two operators combined, Windows paths, expansion entry points (covered with the reference-graph worlds)"},
+		Assumptions: []string{"working directory is /cwd/w in the model (os.Getwd intrinsic); native replay uses the real one", "segments are not . or .. and are valid UTF-8"},
+		Models:      []string{"M-regexp", "M-os (Getwd)", "lazy meta-schemas"},
+	})
+	reg(&PropSpec{
+		ID: "C12", Prefix: "vh_C12_",
+		Quick:    Tier{Params: map[string]int{"ref_len": 2, "alpha_len": 4, "abs_tail": 2}},
+		Thorough: Tier{Params: map[string]int{"ref_len": 3, "alpha_len": 5, "abs_tail": 3}},
+		Bounds: []string{
+			"vh_C12_locate: $ref strings of every length 0..ref_len with every byte unconstrained (256 values)",
+			"vh_C12_alphabet: $ref strings of length ref_len+1..alpha_len over the alphabet {. / % 2 5 F e # a space 0xC3 0xA9} (the segment material the property names: plain, dotted, ./.., escapes, non-ASCII, fragment)",
+			"vh_C12_absolute: one of five concrete scheme/authority prefixes (file:///, http://o.example/, https://o.example/d/, FILE:///, http://h.example/r/) followed by 0..abs_tail unconstrained bytes",
+			"four base documents: file:///root.json, file:///a/b/base.json, http://h.example/r/base.json, https://h.example:8443/r/s/base.json",
+			"ResolveRefWithBase(nil, ref, {RelativeBase, PathLoader}) executed from SSA with net/url, path, strings; the oracle url.ResolveReference is executed from SSA on the same symbolic bytes",
+		},
+		Outside:     []string{"longer references, other bases, references with query/userinfo/opaque part, network-path references (//host/p), scheme-only forms such as http:x, directories (path ending in /, /., /..)", "the 'random longer ones' of the property text (sampling is not part of this technique)"},
+		Assumptions: []string{"valid UTF-8", "no escaped dot (%2e): RFC 3986 6.2.2.2 makes it equivalent to '.', the implementation agrees, the net/url oracle does not", "the loader refuses every document (so that exactly the located URL is observed)", "expected URL is compared after the canonicalisation of reference values checked by C13 (lower-case scheme/host, default port, duplicate slashes)"},
+		Models:      []string{"M-regexp", "M-os: working directory /cwd/w", "lazy meta-schemas (the two built-in cache entries are placeholders)", "M-json for the loader result path (never reached: loader fails)"},
+	})
+	reg(&PropSpec{
 		ID: "C13", Prefix: "vh_C13_",
 		Quick:    Tier{Params: map[string]int{"ref_len": 3}},
 		Thorough: Tier{Params: map[string]int{"ref_len": 4}},
